@@ -156,6 +156,90 @@ pub fn hidmerge(open: &[Vec<usize>], hid: &[Vec<Vec<usize>>]) -> String {
     }
 }
 
+
+/// Correspondence with `P3R.Packing.friPhases`: the real `RecursivePcs::verify_circuit` of this
+/// configuration's PCS on one FRI query over a single committed matrix (`width` columns) of maximal
+/// height, with FRI parameters `lb` / `lf`, a cap of height `in_cap` on the input commitment and per
+/// commit phase `(log_arity, cap height)`. The circuit is only built, never run: the answer is read
+/// off its graph by `static_flags` — per opening, whether its values (and, for the salted MMCS, its
+/// salt) have a dataflow path into a Poseidon permutation (`m`), or not (`f`: fold equation only,
+/// salt an operand of nothing); anything else is `x`. A refusal names the opening that was refused.
+pub fn friphase(lb: usize, lf: usize, in_cap: usize, phases: &[(usize, usize)], width: usize) -> String {
+    use p3_recursion::traits::{Recursive, RecursivePcs};
+    use p3_uni_stark::StarkGenericConfig as _;
+    type Dom = p3_field::coset::TwoAdicMultiplicativeCoset<F>;
+    let salted = salts_mut(&mut mk_mmcs(vec![])).is_some();
+    let r = std::panic::catch_unwind(std::panic::AssertUnwindSafe(|| -> Result<String, String> {
+        let config = make_config(1);
+        let mut cb = p3_circuit::CircuitBuilder::<EF>::new();
+        enable_perm(&mut cb);
+        let salts = |n: usize| if salted { vec![4usize; n] } else { vec![] };
+        let log_max: usize = phases.iter().map(|p| p.0).sum::<usize>() + lf + lb;
+        let shape = super::Pcs {
+            hid: if HIDING { Some(vec![vec![vec![0]]]) } else { None },
+            fri: super::Fri {
+                commits: phases.iter().map(|p| 1usize << p.1).collect(),
+                commit_pow: phases.len(),
+                queries: vec![super::Query {
+                    input: vec![super::BO { opened: vec![width], salts: salts(1) }],
+                    steps: phases.iter().map(|&(a, _)| super::Step { log_arity: a, siblings: (1usize << a) - 1, salts: salts(1) }).collect(),
+                }],
+                final_poly: 1usize << lf,
+            },
+        };
+        let opening = z_pcs(&shape);
+        let opening_t = <OpeningT as Recursive<EF>>::new(&mut cb, &opening);
+        let cap_t = <CapT as Recursive<EF>>::new(&mut cb, &p3_symmetric::MerkleCap::new(vec![[F::ZERO; DIGEST_ELEMS]; 1usize << in_cap]));
+        let z = cb.alloc_public_input("z");
+        let vals: Vec<p3_recursion::Target> = (0..width).map(|_| cb.alloc_public_input("v")).collect();
+        let challenges: Vec<p3_recursion::Target> = (0..1 + phases.len()).map(|_| cb.alloc_public_input("ch")).collect();
+        let dom = Dom::new(F::ONE, log_max - lb).ok_or("domain")?;
+        let coms: Vec<(CapT, Vec<(Dom, Vec<(p3_recursion::Target, Vec<p3_recursion::Target>)>)>)> = vec![(cap_t, vec![(dom, vec![(z, vals)])])];
+        let mut ch = p3_recursion::CircuitChallenger::<WIDTH, RATE, _>::new(perm_config());
+        let params = p3_recursion::pcs::fri::FriVerifierParams::with_mmcs(lb, lf, 1, 1, perm_config());
+        if let Err(e) = <ThePcs as RecursivePcs<SC, InputT, OpeningT, CapT, Dom>>::verify_circuit::<WIDTH, RATE, _>(config.pcs(), &mut cb, &challenges, &mut ch, &coms, &opening_t, &params) {
+            let m = format!("{e:?}");
+            if m.contains("MMCS verification failed for batch") {
+                return Ok("friphase error:in".into());
+            }
+            if let Some(i) = m.find("Commit-phase MMCS verification failed for query 0, phase ") {
+                let k: String = m[i + "Commit-phase MMCS verification failed for query 0, phase ".len()..].chars().take_while(|c| c.is_ascii_digit()).collect();
+                return Ok(format!("friphase error:ph{k}"));
+            }
+            return Err(m);
+        }
+        let circuit = cb.build().map_err(|e| format!("build:{e:?}"))?;
+        let mut labelled: Labelled = vec![];
+        tw_opening(&opening_t, &mut labelled);
+        let (referenced, bound) = static_flags(&circuit);
+        let flag = |l: &str| -> Option<(bool, bool)> {
+            let t = labelled.iter().find(|x| x.0 == l)?.1;
+            let w = circuit.expr_to_widx.get(&t)?.0 as usize;
+            Some((referenced[w], bound[w]))
+        };
+        let verdict = |value: &str, salt: &str| -> char {
+            let v = flag(value);
+            let s = if salted { flag(salt) } else { None };
+            match (v, salted, s) {
+                (Some((_, true)), false, _) => 'm',
+                (Some((_, false)), false, _) => 'f',
+                (Some((_, true)), true, Some((true, true))) => 'm',
+                (Some((_, false)), true, Some((false, _))) => 'f',
+                _ => 'x',
+            }
+        };
+        let vin = if width == 0 { 'm' } else { verdict("fri.q0.in0.m0.0", "fri.q0.in0.salt0.0") };
+        let vph: Vec<String> = (0..phases.len()).map(|k| verdict(&format!("fri.q0.ph{k}.sib.0"), &format!("fri.q0.ph{k}.salt0.0")).to_string()).collect();
+        Ok(format!("friphase in={vin} ph={}", vph.join(",")))
+    }));
+    let clean = |m: String| m.chars().filter(|c| c.is_alphanumeric() || *c == '_').take(60).collect::<String>();
+    match r {
+        Err(p) => format!("friphase panic:{}", clean(super::panic_msg(p))),
+        Ok(Ok(a)) => a,
+        Ok(Err(m)) => format!("friphase other:{}", clean(m)),
+    }
+}
+
 pub enum Op<'a> {
     Walk(&'a mut dyn Vis),
     /// structural walk: enumerate / apply / undo one shape mutation (see `ShapeVis`)
@@ -531,7 +615,7 @@ pub fn swalk_batch(pis: &mut Vec<Vec<F>>, with_pis: bool, proof: &mut p3_batch_s
 }
 
 /// Alter one element per chosen label; judge natively; pack and run.
-pub fn drive(name: &str, seed: u64, per_kind: usize, positions: usize, f: &mut dyn FnMut(Op) -> Resp) -> super::CampaignRes {
+pub fn drive(name: &str, seed: u64, per_kind: usize, positions: usize, statics: Vec<(String, String)>, f: &mut dyn FnMut(Op) -> Resp) -> super::CampaignRes {
     use std::panic::{AssertUnwindSafe, catch_unwind};
     let t0 = std::time::Instant::now();
     let mut col = Collect { items: vec![] };
@@ -688,7 +772,101 @@ pub fn drive(name: &str, seed: u64, per_kind: usize, positions: usize, f: &mut d
             perts.push(super::Pert { setup: name.to_string(), label: "restore".into(), op: "shape".into(), elem: String::new(), native_ok: true, circuit_ok: false, circuit_err: "proof not restored after structural perturbation".into() });
         }
     }
-    super::CampaignRes { setup: name.to_string(), positions, shape_sites, baseline_ok, baseline_note, perts, secs: t0.elapsed().as_secs_f64() }
+    super::CampaignRes { setup: name.to_string(), positions, shape_sites, baseline_ok, baseline_note, perts, statics, secs: t0.elapsed().as_secs_f64() }
+}
+
+
+// ------------------------------------------------------------------------------- static oracles
+//
+// Two judgements on the *graph* of the verifier circuit built for the honest proof, independent of
+// any value: (1) `unwired-input`: an allocated input (public or private) whose witness is an
+// operand of no operation at all — nothing can depend on it; (2) `input-not-hash-bound`: an input
+// from which no dataflow path leads into a Poseidon permutation (as an input, or as the expected
+// value of an output). Every element of a STARK / FRI proof is either absorbed by the Fiat-Shamir
+// transcript or hashed into a Merkle leaf that is compared with a commitment; an input that
+// reaches neither is tied to the rest of the proof by arithmetic alone (for a commit-phase
+// opening: by the fold equation only, i.e. the opening is not bound to its commitment).
+// Both are decided by one forward pass (which operands does each op create) and one reverse pass.
+/// per witness id: (operand of some op, dataflow path into a Poseidon permutation)
+pub fn static_flags(circuit: &p3_circuit::Circuit<EF>) -> (Vec<bool>, Vec<bool>) {
+    use p3_circuit::ops::Op as COp;
+    let n = circuit.witness_count as usize;
+    let mut referenced = vec![false; n];
+    let mut defined = vec![false; n];
+    for w in &circuit.private_input_rows {
+        defined[w.0 as usize] = true;
+    }
+    // per op: (created, sources, is_hash)
+    let mut edges: Vec<(Vec<u32>, Vec<u32>, bool)> = Vec::with_capacity(circuit.ops.len());
+    for op in &circuit.ops {
+        let mut operands: Vec<u32> = vec![];
+        let mut is_hash = false;
+        match op {
+            COp::Const { out, .. } | COp::Public { out, .. } => {
+                defined[out.0 as usize] = true;
+                continue;
+            }
+            COp::Alu { a, b, c, out, intermediate_out, .. } => {
+                operands.extend([a.0, b.0, out.0]);
+                operands.extend(c.iter().map(|w| w.0));
+                operands.extend(intermediate_out.iter().map(|w| w.0));
+            }
+            COp::Hint { inputs, outputs, .. } => {
+                operands.extend(inputs.iter().map(|w| w.0));
+                operands.extend(outputs.iter().map(|w| w.0));
+            }
+            COp::NonPrimitiveOpWithExecutor { inputs, outputs, executor, .. } => {
+                is_hash = executor.op_type().as_str().starts_with("poseidon");
+                operands.extend(inputs.iter().flatten().map(|w| w.0));
+                operands.extend(outputs.iter().flatten().map(|w| w.0));
+            }
+        }
+        let mut created = vec![];
+        let mut sources = vec![];
+        for w in operands {
+            referenced[w as usize] = true;
+            if defined[w as usize] { sources.push(w) } else { created.push(w) }
+        }
+        for w in &created {
+            defined[*w as usize] = true;
+        }
+        edges.push((created, sources, is_hash));
+    }
+    let mut bound = vec![false; n];
+    for (created, sources, is_hash) in edges.iter().rev() {
+        if *is_hash || created.iter().any(|w| bound[*w as usize]) {
+            for w in sources {
+                bound[*w as usize] = true;
+            }
+        }
+    }
+    (referenced, bound)
+}
+
+pub fn static_oracles(circuit: &p3_circuit::Circuit<EF>, targets: &Labelled) -> Vec<(String, String)> {
+    let (referenced, bound) = static_flags(circuit);
+    let mut label_of: std::collections::HashMap<u32, String> = Default::default();
+    for (l, t) in targets {
+        if let Some(w) = circuit.expr_to_widx.get(t) {
+            label_of.entry(w.0).or_insert_with(|| l.clone());
+        }
+    }
+    let mut out = vec![];
+    for (vis, rows) in [("public", &circuit.public_rows), ("private", &circuit.private_input_rows)] {
+        for (pos, w) in rows.iter().enumerate() {
+            let l = label_of.get(&w.0).cloned().unwrap_or_else(|| format!("unlabelled.{vis}.{pos}"));
+            if l.starts_with("unlabelled") && vis == "private" {
+                // every private input of the verifier circuit must be a named proof element
+                out.push(("unnamed-private-input".to_string(), l.clone()));
+            }
+            if !referenced[w.0 as usize] {
+                out.push(("unwired-input".to_string(), l));
+            } else if !bound[w.0 as usize] {
+                out.push(("input-not-hash-bound".to_string(), l));
+            }
+        }
+    }
+    out
 }
 
 fn run_circuit(
@@ -705,9 +883,19 @@ fn run_circuit(
     runner.run().map(|_| ()).map_err(short)
 }
 
-fn campaign_uni(seed: u64, per_kind: usize) -> Vec<super::CampaignRes> {
-    let name = format!("{CFG}.uni");
-    let config = make_config(seed);
+fn setup_name(part: &str, cap: usize) -> String {
+    if cap == 0 { format!("{CFG}.{part}") } else { format!("{CFG}.{part}_cap{cap}") }
+}
+
+/// `cap`: height of the Merkle cap of both MMCSs (input and FRI commit phase). The native MMCS
+/// clamps it per tree (`min(cap, layers - 1)`), so with the testing FRI parameters (blow-up 4,
+/// constant final polynomial, arity 2) `cap = 2` puts the last commit-phase codeword (4 rows)
+/// entirely inside its cap (empty Merkle path, leaf digest = cap entry), `cap = 3` the last two,
+/// and a cap at least as high as the largest tree does so for every tree of the proof, input
+/// commitments included.
+fn campaign_uni(seed: u64, per_kind: usize, cap: usize) -> Vec<super::CampaignRes> {
+    let name = setup_name("uni", cap);
+    let config = make_config_cap(seed, cap);
     let air = CAir::Fib;
     let (trace, mut pis) = fib_trace(8);
     let mut proof = p3_uni_stark::prove(&config, &air, trace, &pis);
@@ -733,6 +921,7 @@ fn campaign_uni(seed: u64, per_kind: usize) -> Vec<super::CampaignRes> {
     };
     let (vi, circuit, op_ids) = build(&proof, pis.len()).unwrap_or_else(|e| panic!("{e}"));
     let positions = circuit.public_flat_len + circuit.private_flat_len;
+    let statics = static_oracles(&circuit, &tw_uni(&vi));
     let mut f = |op: Op| -> Resp {
         match op {
             Op::Walk(v) => {
@@ -755,12 +944,12 @@ fn campaign_uni(seed: u64, per_kind: usize) -> Vec<super::CampaignRes> {
             })()),
         }
     };
-    vec![drive(&name, seed, per_kind, positions, &mut f)]
+    vec![drive(&name, seed, per_kind, positions, statics, &mut f)]
 }
 
-fn campaign_batch(seed: u64, per_kind: usize) -> Vec<super::CampaignRes> {
-    let name = format!("{CFG}.batch");
-    let config = make_config(seed);
+fn campaign_batch(seed: u64, per_kind: usize, cap: usize) -> Vec<super::CampaignRes> {
+    let name = setup_name("batch", cap);
+    let config = make_config_cap(seed, cap);
     let airs = vec![CAir::Fib, CAir::Add(16)];
     let (t0, pv0) = fib_trace(16);
     let traces = vec![t0, add_trace(16)];
@@ -808,6 +997,7 @@ fn campaign_batch(seed: u64, per_kind: usize) -> Vec<super::CampaignRes> {
     };
     let (vi, circuit, op_ids) = build(&proof, &pvs, &prep).unwrap_or_else(|e| panic!("{e}"));
     let positions = circuit.public_flat_len + circuit.private_flat_len;
+    let statics = static_oracles(&circuit, &tw_batch(&vi, &proof));
     let mut f = |op: Op| -> Resp {
         match op {
             Op::Walk(v) => {
@@ -835,13 +1025,17 @@ fn campaign_batch(seed: u64, per_kind: usize) -> Vec<super::CampaignRes> {
             }
         }
     };
-    vec![drive(&name, seed, per_kind, positions, &mut f)]
+    vec![drive(&name, seed, per_kind, positions, statics, &mut f)]
 }
 
 pub fn campaign(seed: u64, per_kind: usize, which: &str) -> Vec<super::CampaignRes> {
-    let r = std::panic::catch_unwind(std::panic::AssertUnwindSafe(|| match which {
-        "uni" => campaign_uni(seed, per_kind),
-        "batch" => campaign_batch(seed, per_kind),
+    let (part, cap) = match which.split_once("_cap") {
+        Some((p, c)) => (p, c.parse::<usize>().unwrap_or(0)),
+        None => (which, 0),
+    };
+    let r = std::panic::catch_unwind(std::panic::AssertUnwindSafe(|| match part {
+        "uni" => campaign_uni(seed, per_kind, cap),
+        "batch" => campaign_batch(seed, per_kind, cap),
         "tables" => tables(seed, per_kind),
         _ => vec![],
     }));
@@ -853,6 +1047,7 @@ pub fn campaign(seed: u64, per_kind: usize, which: &str) -> Vec<super::CampaignR
             baseline_ok: false,
             baseline_note: format!("setup panicked: {}", super::panic_msg(p).chars().take(200).collect::<String>()),
             perts: vec![],
+            statics: vec![],
             secs: 0.0,
         }]
     })
